@@ -1,3 +1,4 @@
+import D2P.Proofs.Hyperlink
 import D2P.Props.C05
 /-!
 # C05 — the lineage register: slot 1 says "tbl" only inside a table
@@ -236,9 +237,9 @@ theorem openStep_keep1 (cfg : PartCfg) (s s' : DC) (x : Xml) (c : Bool) (roots :
       · have := pure_ok ht; subst this; exact Keep.refl 1 s) r h
   · exact wt _ (fun t ht => noteLabel_keep1 s t x _ ht) r h
   · exact wt _ (fun t ht => noteLabel_keep1 s t x _ ht) r h
-  · exact wf _ (fun t ht => by
-      obtain ⟨tx, _, ht⟩ := bind_ok ht; obtain ⟨rn, _, ht⟩ := bind_ok ht
-      exact insertNewRun_keep1 cfg.html s t _ ht) r h
+  · exact wf _ (fun t ht => openHyperlink_preserves (P := fun a => Keep 1 s a) cfg
+      (fun a id b ha hb => ha.trans (startRange_keep1 a b id hb)) (fun a tx b ha hb => ha.trans (insertNewRun_keep1 cfg.html a b tx hb))
+      (fun a id b ha hb => ha.trans (endRange_keep1 a b id hb)) s t x roots (Keep.refl 1 s) ht) r h
   · exact wt _ (fun t ht => by obtain ⟨tx, _, ht⟩ := bind_ok ht; exact insertNewRun_keep1 cfg.html s t _ ht) r h
   · exact wt _ (fun t ht => by obtain ⟨tx, _, ht⟩ := bind_ok ht; exact insertNewRun_keep1 cfg.html s t _ ht) r h
   · exact wt _ (fun t ht => by obtain ⟨tx, _, ht⟩ := bind_ok ht; exact insertNewRun_keep1 cfg.html s t _ ht) r h
